@@ -79,7 +79,17 @@ func cmdFn(args []string) {
 		}
 	}
 	sort.Slice(fns, func(i, j int) bool { return funcKey(fns[i]) < funcKey(fns[j]) })
-	jobs := p.runJobs(fns, SolverCfg{TimeoutMs: *tmo, Dir: "/tmp/govc-smt", Keep: *keep})
+	var lemmas []*Contract
+	for key, c := range p.contracts.byKey {
+		if c.Lemma {
+			for _, pat := range fs.Args() {
+				if strings.Contains(key, pat) {
+					lemmas = append(lemmas, c)
+				}
+			}
+		}
+	}
+	jobs := p.runJobsL(fns, lemmas, SolverCfg{TimeoutMs: *tmo, Dir: "/tmp/govc-smt", Keep: *keep})
 	bad := 0
 	for _, j := range jobs {
 		fmt.Println(j.summary(), fmt.Sprintf("(gen %.2fs)", j.GenSecs))
@@ -127,7 +137,18 @@ func cmdFn(args []string) {
 
 // runJobs generates VCs sequentially (the term store is not concurrent) and solves in parallel.
 func (p *Program) runJobs(fns []*ssa.Function, cfg SolverCfg) []*Job {
+	return p.runJobsL(fns, nil, cfg)
+}
+
+func (p *Program) runJobsL(fns []*ssa.Function, lemmas []*Contract, cfg SolverCfg) []*Job {
 	var jobs []*Job
+	for _, c := range lemmas {
+		j := p.newLemmaJob(c)
+		t0 := time.Now()
+		p.generate(j)
+		j.GenSecs = time.Since(t0).Seconds()
+		jobs = append(jobs, j)
+	}
 	for _, fn := range fns {
 		j := p.newJob(fn)
 		t0 := time.Now()
